@@ -260,3 +260,72 @@ package enum
 //@   ensures (result1 != nil) <==> c != 'l'
 //@   ensures result1 != nil ==> typeis(result1, errors.DocumentError)
 //@   ensures result1 == nil ==> boundis(s.step, scanner, "stateEndValue") && !s.unfinishedLiteral
+
+// ---- C18: the shape of an enum rule: `[` items `]`; line ends (reported) and blanks are
+// transparent, `/` opens a comment (never inside an inline one), items are separated
+// by `,`, no trailing comma ----
+//@ func (*scanner).isAnnotationStart(c)
+//@   props C18
+//@   pure
+//@   ensures result == (c == '/')
+//@ func (*scanner).switchToAnnotation()
+//@   props C18
+//@   requires s != nil && s.returnToStep != nil && 1 <= s.index && s.index <= len(s.data)
+//@   nopanic
+//@   modifies s.step, s.returnToStep.vals, s.returnToStep.vals[*]
+//@   ensures (result != nil) <==> s.annotation
+//@   ensures result != nil ==> typeis(result, errors.DocumentError) && s.step == old(s.step) && len(s.returnToStep.vals) == old(len(s.returnToStep.vals))
+//@   ensures result == nil ==> boundis(s.step, scanner, "stateAnyAnnotationStart") && len(s.returnToStep.vals) == old(len(s.returnToStep.vals)) + 1 && s.returnToStep.vals[old(len(s.returnToStep.vals))] == old(s.step)
+//@ func (*scanner).stateBegin(c)
+//@   props C18
+//@   requires s != nil && 1 <= s.index && s.index <= len(s.data)
+//@   nopanic
+//@   modifies s.step, s.finds, s.finds[*]
+//@   ensures (result1 != nil) <==> !(isBlank(c) || c == '[')
+//@   ensures result1 != nil ==> typeis(result1, errors.DocumentError) && unbox(result1, errors.DocumentError).code == errors.ErrEnumArrayExpected && unbox(result1, errors.DocumentError).index == s.index - 1 && unbox(result1, errors.DocumentError).hasIndex
+//@   ensures isBlank(c) ==> s.step == old(s.step) && len(s.finds) == old(len(s.finds))
+//@   ensures c == '[' ==> boundis(s.step, scanner, "stateFoundArrayItemBeginOrEmpty") && len(s.finds) == old(len(s.finds)) + 1 && s.finds[old(len(s.finds))] == lexeme.ArrayBegin
+//@ func (*scanner).stateBeginValue(c)
+//@   props C18 C05
+//@   requires s != nil && s.returnToStep != nil && 1 <= s.index && s.index <= len(s.data)
+//@   nopanic
+//@   modifies s.step, s.finds, s.finds[*], s.unfinishedLiteral, s.returnToStep.vals, s.returnToStep.vals[*]
+//@   ensures (result1 != nil) <==> ((isNewLine(c) && s.annotation) || (c == '/' && s.annotation) || !(isBlank(c) || c == '/' || c == '"' || c == '-' || c == 't' || c == 'f' || c == 'n' || ('0' <= c && c <= '9')))
+//@   ensures result1 != nil ==> typeis(result1, errors.DocumentError)
+//@   ensures result1 == nil && isNewLine(c) ==> result0 == scanSkip && len(s.finds) == old(len(s.finds)) + 1 && s.finds[old(len(s.finds))] == lexeme.NewLine && s.step == old(s.step)
+//@   ensures result1 == nil && !isNewLine(c) ==> len(s.finds) == old(len(s.finds)) && s.finds.$arr == old(s.finds.$arr) && s.finds.$off == old(s.finds.$off)
+//@   ensures forall j {s.finds[j]} :: 0 <= j && j < old(len(s.finds)) ==> s.finds[j] == old(s.finds[j])
+//@   ensures result1 == nil && isBlank(c) && !isNewLine(c) ==> result0 == scanSkip && s.step == old(s.step)
+//@   ensures result1 == nil && c == '/' ==> result0 == scanSkip
+//@   ensures result1 == nil && c == '"' ==> result0 == scanBeginLiteral && boundis(s.step, scanner, "stateInString") && s.unfinishedLiteral
+//@   ensures result1 == nil && c == '-' ==> result0 == scanBeginLiteral && boundis(s.step, scanner, "stateNeg") && s.unfinishedLiteral
+//@   ensures result1 == nil && c == '0' ==> result0 == scanBeginLiteral && boundis(s.step, scanner, "state0")
+//@   ensures result1 == nil && '1' <= c && c <= '9' ==> result0 == scanBeginLiteral && boundis(s.step, scanner, "state1")
+//@   ensures result1 == nil && c == 't' ==> result0 == scanBeginLiteral && boundis(s.step, scanner, "stateT") && s.unfinishedLiteral
+//@   ensures result1 == nil && c == 'f' ==> result0 == scanBeginLiteral && boundis(s.step, scanner, "stateF") && s.unfinishedLiteral
+//@   ensures result1 == nil && c == 'n' ==> result0 == scanBeginLiteral && boundis(s.step, scanner, "stateN") && s.unfinishedLiteral
+//@ func (*scanner).stateFoundArrayItemBegin(c)
+//@   props C18 C06
+//@   requires s != nil && s.returnToStep != nil && 1 <= s.index && s.index <= len(s.data)
+//@   nopanic
+//@   modifies s.step, s.finds, s.finds[*], s.unfinishedLiteral, s.returnToStep.vals, s.returnToStep.vals[*]
+//@   ensures result1 == nil && result0 == scanBeginLiteral ==> len(s.finds) == old(len(s.finds)) + 2 && s.finds[old(len(s.finds))] == lexeme.ArrayItemBegin && s.finds[old(len(s.finds)) + 1] == lexeme.LiteralBegin
+//@           && (forall j :: 0 <= j && j < old(len(s.finds)) ==> s.finds[j] == old(s.finds[j]))
+//@   ensures c == ']' ==> result1 != nil
+//@ func (*scanner).stateFoundArrayEnd()
+//@   props C18 C06
+//@   requires s != nil && s.stack != nil
+//@   nopanic
+//@   modifies s.step, s.finds, s.finds[*]
+//@   ensures result1 == nil && result0 == scanSkip && len(s.finds) == old(len(s.finds)) + 1 && s.finds[old(len(s.finds))] == lexeme.ArrayEnd
+//@   ensures len(s.stack.vals) == 0 ? boundis(s.step, scanner, "stateEndTop") : boundis(s.step, scanner, "stateEndValue")
+//@ func (*scanner).stateAfterArrayItem(c)
+//@   props C18 C05
+//@   requires s != nil && s.returnToStep != nil && s.stack != nil && 1 <= s.index && s.index <= len(s.data)
+//@   nopanic
+//@   modifies s.step, s.finds, s.finds[*], s.returnToStep.vals, s.returnToStep.vals[*]
+//@   ensures (result1 != nil) <==> ((isNewLine(c) && s.annotation) || (c == '/' && s.annotation) || !(isBlank(c) || c == '/' || c == ',' || c == ']'))
+//@   ensures result1 == nil && isNewLine(c) ==> len(s.finds) == old(len(s.finds)) + 1 && s.finds[old(len(s.finds))] == lexeme.NewLine && s.step == old(s.step)
+//@   ensures result1 == nil && isBlank(c) && !isNewLine(c) ==> len(s.finds) == old(len(s.finds)) && s.step == old(s.step)
+//@   ensures result1 == nil && c == ',' ==> boundis(s.step, scanner, "stateFoundArrayItemBegin") && len(s.finds) == old(len(s.finds))
+//@   ensures result1 == nil && c == ']' ==> len(s.finds) == old(len(s.finds)) + 1 && s.finds[old(len(s.finds))] == lexeme.ArrayEnd
